@@ -22,8 +22,12 @@ def r_export2(root):
     out = []; inst = 0
     t = load(root, E)
     # ---- C29.d
-    ex = find(t, "model_export_to_file._export"); fi = sem.info(ex)
-    for c in [c for c in calls(ex, own=True) if callee_name(c) == "dot_repr" and c.args]:
+    # every dot_repr call of model_export_to_file and of the functions nested in it (whatever they are called)
+    mf0 = find(t, "model_export_to_file")
+    sites = [(f_, c) for f_ in [mf0] + [n_ for n_ in ast.walk(mf0) if isinstance(n_, ast.FunctionDef) and n_ is not mf0] for c in calls(f_, own=True) if callee_name(c) == "dot_repr" and c.args]
+    if not sites: raise AnalysisError("model_export_to_file: no dot_repr call found (the label writer vanished)")
+    for ex, c in sites:
+        fi = sem.info(ex)
         inst += 1
         a = c.args[0]; okc = False; why = ""
         if isinstance(a, ast.Name):
@@ -41,9 +45,9 @@ def r_export2(root):
                 if any(pol and u in (allprim, allprim2) for u, pol in stg): okc = True
                 if any(_u(f) in ("isinstance(%s,str)" % a.id, "type(%s)inPRIMITIVE_PYTHON_TYPES" % a.id) for gen in comp.generators for f in gen.ifs): okc = True
                 why = "guards: %s" % [u for u, p in stg if p][-2:]
-        ob("C29", "C29.d", E, "model_export_to_file._export", ast.unparse(c), okc)
+        ob("C29", "C29.d", E, "model_export_to_file." + ex.name, ast.unparse(c), okc)
         if not okc:
-            out.append(Finding("C29", "C29.d", E, "model_export_to_file._export", " ".join(ast.unparse(stmt_of(c)).split())[:110], "dot_repr escapes only strings; here its argument is not known to be a string or primitive (%s): an object in the list is written as '<Cls:name>' into a record label and gets no node of its own" % why, witness="Value: Item | INT | STRING;  list 7, item a"))
+            out.append(Finding("C29", "C29.d", E, "model_export_to_file." + ex.name, " ".join(ast.unparse(stmt_of(c)).split())[:110], "dot_repr escapes only strings; here its argument is not known to be a string or primitive (%s): an object in the list is written as '<Cls:name>' into a record label and gets no node of its own" % why, witness="Value: Item | INT | STRING;  list 7, item a"))
     # ---- C29.c  (i) empty own repository
     mf = find(t, "model_export_to_file"); inst += 1
     took = [n for n in own_nodes(mf) if isinstance(n, ast.Assign) and "_tx_model_repository" in ast.unparse(n.value) and isinstance(n.targets[0], ast.Name)]
